@@ -37,7 +37,7 @@ raw_case = st.fixed_dictionaries({"a": gen.z256(), "b": gen.z256(), "nbits": st.
                                   "w": st.sampled_from([5, 7]), "i": st.integers(0, 51), "move": st.integers(0, 1)})
 
 
-@P.sub("raw256", raw_case, quick=24000, thorough=1500000, variants=VAR)
+@P.sub("raw256", raw_case, quick=24000, thorough=400000, variants=VAR)
 def raw256(case, ctx):
     """add/sub/mul/cmp/equ/is_zero/rshift/bytes/hex/booth/copy_conditional on [0,2^256)"""
     l = L(ctx)
@@ -108,7 +108,7 @@ def raw256(case, ctx):
 modp_case = st.fixed_dictionaries({"a": gen.z256(M.P), "b": gen.z256(M.P), "e": gen.z256()})
 
 
-@P.sub("modp", modp_case, quick=16000, thorough=1000000, variants=VAR)
+@P.sub("modp", modp_case, quick=16000, thorough=250000, variants=VAR)
 def modp(case, ctx):
     """every sm2_z256_modp_* function against Python ints, operands in [0,p)"""
     l = L(ctx)
@@ -155,7 +155,7 @@ def modp(case, ctx):
 modn_case = st.fixed_dictionaries({"a": gen.z256(M.N), "b": gen.z256(M.N), "e": gen.z256()})
 
 
-@P.sub("modn", modn_case, quick=16000, thorough=1000000, variants=VAR)
+@P.sub("modn", modn_case, quick=16000, thorough=250000, variants=VAR)
 def modn(case, ctx):
     """every sm2_z256_modn_* function against Python ints, operands in [0,n)"""
     l = L(ctx)
@@ -208,7 +208,7 @@ def _mk(spec, base=None):
     return M.mul(u(spec["k"]), M.G)
 
 
-@P.sub("points", pair_case, quick=5000, thorough=300000, variants=VAR)
+@P.sub("points", pair_case, quick=5000, thorough=100000, variants=VAR)
 def points(case, ctx):
     """dbl/add/sub/neg/add_affine/sub_affine/is_on_curve/equ/get_xy/is_at_infinity vs affine group law"""
     l = L(ctx)
@@ -306,7 +306,7 @@ mul_case = st.fixed_dictionaries({"k": _k_strategy(), "t": _k_strategy(),
                                   "rel": st.sampled_from(["free", "free", "free", "collide"])})
 
 
-@P.sub("scalarmul", mul_case, quick=2400, thorough=150000, variants=VAR)
+@P.sub("scalarmul", mul_case, quick=2400, thorough=40000, variants=VAR)
 def scalarmul(case, ctx):
     """[k]P by point_mul, mul_pre_compute+mul_ex, mul_generator, mul_sum vs double-and-add"""
     l = L(ctx)
